@@ -490,6 +490,11 @@ theorem source_trackerMin : GeneratedSrc.trackerMin = ExpectedSrc.trackerMin := 
 
 theorem source_kcReceive : GeneratedSrc.kcReceive = ExpectedSrc.kcReceive := by rfl
 
+/-! ### the transport the replication theorems assume: a starting receiver keeps, per key, the record that is last in log order -/
+theorem source_mrProcessMessage : GeneratedSrc.mrProcessMessage = ExpectedSrc.mrProcessMessage := by rfl
+theorem source_mrProcessInitBuffer : GeneratedSrc.mrProcessInitBuffer = ExpectedSrc.mrProcessInitBuffer := by rfl
+theorem source_mrProcessEvent : GeneratedSrc.mrProcessEvent = ExpectedSrc.mrProcessEvent := by rfl
+
 /-! ### influence closure: the pinned functions, and every function of the repository that writes a struct field or package
 variable they read, are unchanged (digests regenerated from /repo on every run; a difference names the functions) -/
 theorem closure_unchanged : GeneratedClo.C08 = ExpectedClo.C08 := by rfl
